@@ -123,6 +123,12 @@ def inline_crate(j):
         while bi < len(f['blocks']):
             b = f['blocks'][bi]
             t = b['term']
+            if t['t'] == 'call' and (t['callee'].get('def') or '') == 'std::iter::Iterator::for_each' and len(t['args']) == 2:
+                if _for_each_to_loop(f, bi, by_name, inline_fn, stack, depth):
+                    stats['inlined'] += 1
+                    stats['sites'].append('%s <- for_each' % f['name'])
+                    bi += 1
+                    continue
             if t['t'] == 'call':
                 g, how = target_of(f, t)
                 if g is not None and g['name'] not in stack and depth < MAX_DEPTH and len(f['blocks']) + len(g['blocks']) < MAX_BLOCKS:
@@ -138,7 +144,7 @@ def inline_crate(j):
     for f in list(j['fns']):
         inline_fn(f, {f['name']}, 0)
     # drop new private helpers whose every call site was inlined and that are not used as values
-    inlined_names = {x.split('<- ', 1)[1] for x in stats['sites']}
+    inlined_names = {x.split('<- ', 1)[1] for x in stats['sites'] if not x.endswith('<- for_each')}
     for name, g in list(by_name.items()):
         if g.get('kind') == 'Closure' or name in kn or name not in inlined_names:
             continue
@@ -220,6 +226,90 @@ def _splice(f, bi, g, how):
             f['debug'].append(d2)
     f['blocks'][bi]['stmts'].extend(pre)
     f['blocks'][bi]['term'] = {'t': 'goto', 'to': db}
+    return True
+
+
+def _closure_def(f, op):
+    """(closure fn name, local holding the closure) when operand op is a closure built in f"""
+    if op.get('o') not in ('copy', 'move') or op['pl']['p']:
+        return None, None
+    l = op['pl']['l']
+    defs = []
+    for b in f['blocks']:
+        for st in b['stmts']:
+            if st['s'] == 'assign' and st['pl']['l'] == l and not st['pl']['p']:
+                defs.append(st['rv'])
+        t = b['term']
+        if t['t'] == 'call' and t['dest']['l'] == l and not t['dest']['p']:
+            defs.append(None)
+    if len(defs) == 1 and defs[0] is not None and defs[0]['r'] == 'agg' and defs[0]['kind'].get('k') == 'closure':
+        return defs[0]['kind']['path'], l
+    return None, None
+
+
+def _for_each_to_loop(f, bi, by_name, inline_fn, stack, depth):
+    """`iter.for_each(closure)` (std Iterator, closure built in this function, or a fn item) is the loop
+    `while let Some(x) = iter.next() { closure(x) }`: rewrite the call into exactly the MIR shape of a
+    `for` loop, with the closure body spliced in, so that rules see one form for both spellings."""
+    t = f['blocks'][bi]['term']
+    it_op, cb_op = t['args']
+    if it_op.get('o') not in ('copy', 'move'):
+        return False
+    it_ty = it_op['pl']['ty']
+    line = t.get('line')
+    cont = t['to']
+    if cont is None or cont < 0:
+        return False
+    g = None
+    fn_item = None
+    if cb_op.get('o') == 'const' and cb_op['c'].get('k') == 'fn':
+        fn_item = cb_op['c']
+        item_ty = '?'
+    else:
+        cname, cl = _closure_def(f, cb_op)
+        g = by_name.get(cname) if cname else None
+        if g is None or g['argc'] != 2 or len(f['blocks']) + len(g['blocks']) > MAX_BLOCKS:
+            return False
+        inline_fn(g, stack | {g['name']}, depth + 1)
+        item_ty = g['locals'][2]['ty']
+    L = len(f['locals'])
+    l_it, l_ref, l_opt, l_d, l_unit = L, L + 1, L + 2, L + 3, L + 4
+    f['locals'].extend([{'ty': it_ty, 'adt': ''}, {'ty': '&mut ' + it_ty, 'adt': ''}, {'ty': 'std::option::Option<%s>' % item_ty, 'adt': 'std::option::Option'},
+                        {'ty': 'isize', 'adt': ''}, {'ty': '()', 'adt': ''}])
+    B = len(f['blocks'])
+    bH, bS, bU, bBody = B, B + 1, B + 2, B + 3
+    pl = lambda l, ty, p=None: {'l': l, 'p': p or [], 'ty': ty}
+    blkH = {'cleanup': False, 'stmts': [{'s': 'assign', 'pl': pl(l_ref, '&mut ' + it_ty), 'rv': {'r': 'ref', 'mut': True, 'pl': pl(l_it, it_ty)}, 'line': line, 'exp': True}],
+            'term': {'t': 'call', 'callee': {'def': 'std::iter::Iterator::next', 'args': [it_ty], 'resolved': True, 'path': '<%s as std::iter::Iterator>::next' % it_ty,
+                                             'trait': 'std::iter::Iterator', 'self': it_ty, 'local': False, 'krate': 'core'},
+                     'args': [{'o': 'move', 'pl': pl(l_ref, '&mut ' + it_ty)}], 'dest': pl(l_opt, 'std::option::Option<%s>' % item_ty), 'to': bS, 'line': line, 'exp': True}}
+    blkS = {'cleanup': False, 'stmts': [{'s': 'assign', 'pl': pl(l_d, 'isize'), 'rv': {'r': 'discr', 'pl': pl(l_opt, 'std::option::Option<%s>' % item_ty), 'adt': 'std::option::Option'}, 'line': line, 'exp': True}],
+            'term': {'t': 'switch', 'd': {'o': 'move', 'pl': pl(l_d, 'isize')}, 'targets': [['0', cont], ['1', bBody]], 'otherwise': bU, 'line': line, 'exp': True}}
+    blkU = {'cleanup': False, 'stmts': [], 'term': {'t': 'unreachable'}}
+    item = {'o': 'move', 'pl': pl(l_opt, item_ty, [{'k': 'downcast', 'v': 1, 'n': 'Some'}, {'k': 'field', 'i': 0, 'n': '0'}])}
+    f['blocks'].extend([blkH, blkS, blkU])
+    if fn_item is not None:
+        c = {'def': fn_item['path'], 'args': fn_item.get('args', []), 'resolved': False, 'path': fn_item['path'], 'local': True, 'krate': ''}
+        f['blocks'].append({'cleanup': False, 'stmts': [], 'term': {'t': 'call', 'callee': c, 'args': [item], 'dest': pl(l_unit, '()'), 'to': bH, 'line': line, 'exp': False}})
+    else:
+        # a stub block that "calls" the closure, immediately spliced
+        env_ty = g['locals'][1]['ty']
+        L2 = len(f['locals'])
+        f['locals'].append({'ty': env_ty, 'adt': ''})
+        stmts = []
+        if env_ty.startswith('&'):
+            stmts.append({'s': 'assign', 'pl': pl(L2, env_ty), 'rv': {'r': 'ref', 'mut': env_ty.startswith('&mut'), 'pl': pl(cb_op['pl']['l'], cb_op['pl']['ty'])}, 'line': line, 'exp': True})
+            env = {'o': 'move', 'pl': pl(L2, env_ty)}
+        else:
+            env = {'o': 'move', 'pl': pl(cb_op['pl']['l'], cb_op['pl']['ty'])}
+        stub = {'cleanup': False, 'stmts': stmts, 'term': {'t': 'call', 'callee': {'def': g['name'], 'path': g['name'], 'local': True}, 'args': [env, item], 'dest': pl(l_unit, '()'), 'to': bH, 'line': line, 'exp': False}}
+        f['blocks'].append(stub)
+        if not _splice(f, bBody, g, 'fn'):
+            return False
+    # the original block: move the iterator into its slot and enter the loop
+    f['blocks'][bi]['stmts'].append({'s': 'assign', 'pl': pl(l_it, it_ty), 'rv': {'r': 'use', 'a': copy.deepcopy(it_op)}, 'line': line, 'exp': True})
+    # the unit result of for_each
+    f['blocks'][bi]['term'] = {'t': 'goto', 'to': bH}
     return True
 
 
